@@ -201,6 +201,52 @@ impl<const N: usize> Events<N> {
     }
 }
 
+#[cfg(rs_matter_verif)]
+impl<const N: usize> Events<N> {
+    /// Verification hook: same as [`Events::push`], but with a caller-chosen
+    /// system timestamp (ms since boot) instead of `Instant::now()`, so that the
+    /// encoded size of the event does not depend on the wall clock.
+    #[allow(clippy::too_many_arguments)]
+    pub fn verif_push_at<S, F>(
+        &self,
+        endpoint_id: EndptId,
+        cluster_id: ClusterId,
+        event_id: EventId,
+        priority: EventPriority,
+        timestamp_ms: u64,
+        kv: S,
+        f: F,
+    ) -> Result<EventNumber, Error>
+    where
+        S: KvBlobStoreAccess,
+        F: FnOnce(EventTLVWrite<'_>) -> Result<(), Error>,
+    {
+        let mut persist = Persist::new(kv);
+
+        let event_number = self.inner.lock(|state| {
+            let mut state = state.borrow_mut();
+
+            let event_number = state.next_event_number(&mut persist)?;
+
+            state.push(
+                endpoint_id,
+                cluster_id,
+                event_id,
+                event_number,
+                priority,
+                EventDataTimestamp::SystemTimestamp(timestamp_ms),
+                f,
+            )?;
+
+            Ok::<_, Error>(event_number)
+        })?;
+
+        persist.run()?;
+
+        Ok(event_number)
+    }
+}
+
 impl<const N: usize> Default for Events<N> {
     fn default() -> Self {
         Self::new()
